@@ -212,7 +212,10 @@ def verdict (ls : List SLabel) (impl : String) : String :=
       match s.fail with
       | some m => m
       | none =>
-        if items.getLast? ≠ some "Z" then "FAIL last item is not EOF"
+        if items.any (·.startsWith "panic:") then
+          s!"FAIL panic after the schedule, when every goroutine ran on freely: {(items.filter (·.startsWith "panic:")).headD ""}"
+        else if items.contains "hang" then "FAIL hang: run or a timer callback did not come to its end"
+        else if items.getLast? ≠ some "Z" then "FAIL last item is not EOF"
         else if (items.filter (· = "Z")).length ≠ 1 then "FAIL more than one EOF item"
         else if closed ≠ "closed" then "FAIL channel not closed after EOF"
         else if s.sawSkip then "-"
